@@ -1442,8 +1442,11 @@ func main() {
 		"*log.Logger / package log Fatal, Fatalf, Fatalln are left out (they end in the standard library's own os.Exit), Output as well (it takes its own calldepth, about which zap documents nothing); package-level slog functions are left out (slog.SetDefault rewires package log)",
 		"zap Fatal-level calls run with WithFatalHook(WriteThenPanic) and are recovered outside the wrapper chain",
 		"for the zapslog handler the caller expectation with WithCallerSkip(k>0) follows the option's documentation (caller shifted k frames, same frame as the stack trace); with k=0 it is the call site slog recorded",
+		"zapslog records that reach Handle through a middleware slog.Handler or as hand-made records (slog.NewRecord with the caller's own pc) must show the recorded call site when no caller skip is configured",
 		"pooled pc storage: phase 0 empties sync.Pool with two GC cycles before each call so that the 64-entry slab grows at 64/128/256 frames; in the parallel phases the slab may already be large - the oracle is the same either way",
 	}
+	phaseEvals["slog-other-routes"] = slogRoutes(run)
+	evals += phaseEvals["slog-other-routes"]
 	pe := map[string]any{}
 	for k, v := range phaseEvals {
 		pe[k] = v
